@@ -20,8 +20,6 @@ Proof.
     intros [= <-]. destruct (IH y eq_refl) as [bss [-> ->]]. exists (x :: bss). auto.
 Qed.
 
-Lemma oview_ok A (o : out A) v r : oview o = OOk v r -> o = OOk v r.
-Proof. destruct o; cbn [oview]; congruence. Qed.
 
 (* ---------- primitive round trips ---------- *)
 Lemma rt_compact B n known rest : okwidth B -> n < 2 ^ (8 * B) ->
